@@ -114,7 +114,8 @@ impl World {
                 short_read: self.cfg.benign.short_read,
                 short_write: self.cfg.benign.short_write,
             },
-            budget: 2_000_000,
+            // a recount of the free clusters costs two device calls per cluster: that is work, not a hang
+            budget: 2_000_000 + 5 * u64::from(self.geo.n_clusters),
             fail_from: None,
         }
     }
